@@ -17,6 +17,12 @@ Line protocol for C14 (Float, bit patterns `x<16 hex>`):
   (`n` doubles per name, concatenated in the order of `names`) and whose
   `temp_prop` holds `old` before the call.  Answer `temp <fl>`: the contents of
   `temp_prop` afterwards.
+* `R shape=<nats> strides=<ints> offset=<int> buf=<fl>` — `a.ravel()` of the numpy
+  array with that shape, strides and offset (in elements) over the memory `buf`;
+  answer `flat <fl>`: the coordinates of the target particles in particle order.
+* `U shape=<nats> flat=<fl>` — `result = flat.copy(); result.shape = shape;
+  result.squeeze()`: answer `res <fl>`, the entries of the returned array listed
+  in row-major order of ITS (squeezed) shape.
 * bindings (stateful): `B init arrays=<nats> pts=<nat>`, `B setpts p=<nat>`,
   `B updarr arrays=<nats>`, `B update`, `B mutate o=<nat>`, and for SPHEvaluator `B initeval objs=<nats>`,
   `B evalupdarr objs=<nats>`; each answers
@@ -90,6 +96,38 @@ def handleS (kv : List (String × String)) : String :=
       "temp " ++ showFl (t 0)
   | _, _, _, _, _ => "bad-op"
 
+def handleR (kv : List (String × String)) : String :=
+  match (lookup kv "shape") >>= parseList? parseNat?,
+        (lookup kv "strides") >>= parseList? parseInt?,
+        (lookup kv "offset") >>= parseInt?,
+        (lookup kv "buf") >>= parseList? parseFloatBits? with
+  | some sh, some st, some off, some buf =>
+    if st.length ≠ sh.length then "bad-op" else
+    let v : NdView Float := { shape := sh, strides := st, offset := off, buf := buf }
+    -- every element must lie inside the buffer (no silent default)
+    if (allIndices sh).all (fun idx =>
+        let m := off + memOffset st idx
+        decide (0 ≤ m) && decide (m.toNat < buf.length)) then
+      "flat " ++ showFl (ravelC v)
+    else "bad-op"
+  | _, _, _, _ => "bad-op"
+
+def sequenceOpt {α : Type} : List (Option α) → Option (List α)
+  | [] => some []
+  | none :: _ => none
+  | some a :: rest => (sequenceOpt rest).map (a :: ·)
+
+def handleU (kv : List (String × String)) : String :=
+  match (lookup kv "shape") >>= parseList? parseNat?,
+        (lookup kv "flat") >>= parseList? parseFloatBits? with
+  | some sh, some flat =>
+    if flat.length ≠ size sh then "bad-op" else
+    match sequenceOpt ((allIndices (squeezeShape sh)).map
+        (fun idx' => reshapedGet flat sh (unsqueeze sh idx'))) with
+    | some vals => "res " ++ showFl vals
+    | none => "bad-op"
+  | _, _ => "bad-op"
+
 def showNats (l : List Nat) : String := showList toString l
 
 def showReads (s : IState) : String :=
@@ -131,6 +169,8 @@ def handle (st : Option IState) (line : String) : Option IState × String :=
   | "pt" :: rest => (st, handlePt (kvs rest))
   | "post" :: rest => (st, handlePost (kvs rest))
   | "S" :: rest => (st, handleS (kvs rest))
+  | "R" :: rest => (st, handleR (kvs rest))
+  | "U" :: rest => (st, handleU (kvs rest))
   | "B" :: rest => handleB st rest
   | _ => (st, "bad-op")
 
